@@ -19,6 +19,7 @@ inductive Holder
 inductive RefOp
   | acquire (h : Holder)      -- create the holder (attach)
   | release (h : Holder)      -- destroy the holder (detach)
+  | retarget (c c' : Nat)     -- an external polynomial of context c becomes the output of an operation on context c'
   deriving Repr
 
 structure RefState where
@@ -42,9 +43,17 @@ def bump (s : RefState) (h : Holder) (d : Int) : RefState :=
   | .ringHandle r | .upoly r | .fsi r => s.bumpRing r d
   | .ctxHandle c | .extPoly c | .vec c => s.bumpCtx c d
 
+def acq (s : RefState) (h : Holder) : RefState := { (s.bump h 1) with holders := h :: s.holders }
+def rel (s : RefState) (h : Holder) : RefState :=
+  if s.holders.contains h then { (s.bump h (-1)) with holders := s.holders.erase h } else s
+
 def step (s : RefState) : RefOp → RefState
-  | .acquire h => { (s.bump h 1) with holders := h :: s.holders }
-  | .release h => if s.holders.contains h then { (s.bump h (-1)) with holders := s.holders.erase h } else s
+  | .acquire h => s.acq h
+  | .release h => s.rel h
+  | .retarget c c' =>
+    -- lp_polynomial_set_context / lp_polynomial_swap: the reference on the old context is given back and one on the
+    -- new context is taken (nothing happens when no such polynomial exists)
+    if s.holders.contains (.extPoly c) then (s.rel (.extPoly c)).acq (.extPoly c') else s
 
 def run (s : RefState) (ops : List RefOp) : RefState := ops.foldl step s
 
